@@ -32,7 +32,7 @@ from vt import sx
 ROOT = '/verif'
 COQ = os.path.join(ROOT, 'coq')
 BUILD = os.path.join(ROOT, 'build')
-REPO = '/repo'
+REPO = os.environ.get('VERIF_REPO', '/repo')
 LOGICAL = 'NS'
 
 ALLOWED_AXIOM_PREFIXES = (
